@@ -137,11 +137,6 @@ impl Mutation {
 			_ => None,
 		}
 	}
-	fn key(&self) -> usize {
-		match self {
-			Mutation::Write { key, .. } | Mutation::Remove { key, .. } => *key as usize,
-		}
-	}
 }
 
 impl Op {
@@ -274,6 +269,16 @@ pub struct Workdir {
 impl Workdir {
 	pub fn new() -> Workdir {
 		let root = if Path::new("/dev/shm").is_dir() { PathBuf::from("/dev/shm") } else { std::env::temp_dir() };
+		// sweep scratch directories of runs that were killed
+		if let Ok(rd) = std::fs::read_dir(&root) {
+			for e in rd.flatten() {
+				if let Some(pid) = e.file_name().to_str().and_then(|n| n.strip_prefix("mc-store-")).and_then(|p| p.parse::<u32>().ok()) {
+					if !Path::new(&format!("/proc/{}", pid)).exists() {
+						let _ = std::fs::remove_dir_all(e.path());
+					}
+				}
+			}
+		}
 		let base = root.join(format!("mc-store-{}", std::process::id()));
 		let _ = std::fs::remove_dir_all(&base);
 		if let Err(e) = std::fs::create_dir_all(&base) {
@@ -306,11 +311,6 @@ impl Workdir {
 	}
 }
 
-#[derive(Clone, Debug, Default)]
-pub struct Post {
-	pub files: Vec<(String, Option<u8>)>,
-	pub lockmap: usize,
-}
 
 pub struct ExecResult {
 	pub decisions: Vec<Decision>,
@@ -322,6 +322,7 @@ pub struct ExecResult {
 	pub lockmap_leftover: usize,
 	pub interleaved: bool,
 	pub faults: usize,
+	#[allow(dead_code)]
 	pub preemptions: usize,
 	pub history: Vec<String>,
 	pub label: String,
